@@ -168,14 +168,14 @@ EXTRA = {
  "C13": " C13_code_views: the four filtered properties of FilteredConfigParser regenerated from the source are filteredView.",
  "C14": " C14_code_apply_overrides: the override / removal / addition loops of _init_config_parser regenerated from the source, run on the model's parser operations, are applyOps for every "
         "file and operation lists; C14_code_parse_item_value/_novalue, C14_code_cli_operations, C14_cli_dict_model: the command-line layer (_create_override_tuple, _item_id, the ordered "
-        "dictionary of _make_config_parser) regenerated from the source is cliOverrides. C14_empty_section_*/C14_code_empty_section: an item of a section without a name is rejected by model and regenerated code alike.",
+        "dictionary of _make_config_parser) regenerated from the source is cliOverrides. C14_empty_section_*/C14_code_empty_section: an item of a section without a name is rejected by model and regenerated code alike. C14_code_list_items(_complete), C14_code_item_value_of_listed: _list_items with parsed_sections / orphan_sections regenerated from the source lists every section of the file exactly once, and _item_value returns each listed item's value.",
  "C16": " C16_code_pair_species(_iff/_no_unpack), C16_split_spec, C16_code_signature_check: the pair-key parser and the signature name-clash loop regenerated from the source are splitKey / validSignature; "
         "C16_code_read_from_parser: an unknown target is a configuration error before any factory runs.",
  "C17": " C17_code_lammps/_dlpoly/_gulp/_setfl/_setfl_fs/_tabeam/_tabeam_fs/_tabulation_objects: for every whole-file writer and tabulation class on the text targets (ADP included) a "
         "destination-mode twin regenerated from the same source (one chunk per write call reaching the destination) receives, for EVERY input, exactly one chunk holding the complete "
         "table, or nothing when the writer itself raises; C17_code_trace: that history is traceBuffered.",
  "C18": " C18_code_find_index/_get_value/_index_in_range, C18_code_plot: TableReaderBase._findIndex / getValue (every index in range) and plotToFile regenerated from the source are the model's functions.",
- "C19": " C19_code_adp_write: ADP_EAMTabulation.write with _write_dipole/_write_quadrupole regenerated from the source (three files) writes the model's adp.",
+ "C19": " C19_code_adp_write: ADP_EAMTabulation.write with _write_dipole/_write_quadrupole regenerated from the source (three files) writes the model's adp. C19_code_create_tabulation_adp: the ADP factory hands the constructor the dipole then the quadrupole objects, each from its own section, and the grid values in order.",
  "C20": " C20_code_dup_pairs(_ok_iff), C20_code_dup_table_forms, C20_code_build_potential_forms/_build_table_forms/_check_labels_case: the duplicate checks of the parser and the label checks of "
         "the form registry regenerated from the source decide dupPairs / dupLabels.",
  "C12": " C12_code_eam_builder(_order_free/_strict): EAM_Potential_Builder._init_eampotentials and the eleven methods it uses, regenerated from the source with the iteration order of its one "
